@@ -286,3 +286,31 @@ PROPS["C09"] = dict(
                   "PEM armour (topem/unpem): bounded stand-in"],
     explanation="to_string / to_der of both key classes equal the specification encoders for every curve record and every point encoding; from_string(to_string(k)) gives back the same point (lemma); loaders accept only canonical structures",
 )
+
+
+def _c19_hist(tier, seed):
+    from contracts.bounded_alg import history_bounded
+    return history_bounded(tier, seed)
+
+
+def _c07_b(tier, seed):
+    from contracts.bounded_alg import scalar_mul_bounded
+    return scalar_mul_bounded(tier, seed)
+
+
+_HIST = [PJ_ + f for PJ_ in ("ecdsa.ellipticcurve.PointJacobi.",) for f in ("__getstate__", "__setstate__")] + \
+    ["ecdsa.ecdsa.Public_key.__eq__", "ecdsa.ecdsa.Private_key.__eq__", _K + "VerifyingKey.__eq__", _K + "SigningKey.__eq__", _K + "VerifyingKey.precompute"]
+PROPS["C19"] = dict(
+    level="other",
+    functions=_OBJ + _AFF + _HIST,
+    lemmas=[],
+    bounded=[dict(function="ecdsa.ellipticcurve.PointJacobi.__mul__", label="operation histories against the affine reference model", role="bounded stand-in for the history quantifier (and for the scalar-multiplication / table steps of a history)",
+                  bound="random walks of 1..8 public operations (x, y, scale, to_affine, double, neg, add, mul, eq, pickle round trip, mul_add, affine + jacobi) over a pool of 3..8 live points in 4 stored representations on toy curves of prime order over F_p, p <= 17 (quick: 400 walks per curve) / 31 (thorough: 5000); then every live object is compared with a fresh object of the same value on 7 observers; == against value equality on all representation pairs",
+                  run=_c19_hist)],
+    min_obligations=60,
+    trusted_base=["field axioms of F_p; sympy normal forms (see C06)",
+                  "induction over the length of a history: every public method preserves the view of every live object and its result is a function of views only (the per-method obligations are discharged, the induction step is a meta-argument)",
+                  "PointJacobi.__mul__ / mul_add inside VerifyingKey.precompute are applied by their frame contract (may rescale the stored triple to the same view, may publish the table): proved at the group level in C07",
+                  "pickle itself (the protocol between __getstate__ and __setstate__) hands over the state dictionary unchanged"],
+    explanation="object-level contracts in field mode: every PointJacobi / Point method is specified through the view (the denoted affine point) of its operands only, preserves the view of every operand and writes nothing but a view-preserving __coords; __getstate__/__setstate__ copy exactly the fields; key equality is equality of curve parameters, views (and scalars) for every stored representation; VerifyingKey.precompute replaces the point by one of equal view",
+)
